@@ -391,7 +391,10 @@ def run(ctx):
             arr_ok = len(keycalls) == 1 and mir.strip(keycalls[0].b[0]) == last and len(modcalls) == 1 and isinstance(f.get("modifiers"), tuple) and f["modifiers"][0] == "okval"
         else:
             m_ = f.get("modifiers")
-            bare_ok = len(keycalls) == 1 and keycalls[0].b[0] == v and not modcalls and isinstance(m_, tuple) and m_[0] == "call" and method_name(m_[1]) == "new"
+            fresh = not modcalls and isinstance(m_, tuple) and m_[0] == "call" and method_name(m_[1]) == "new"
+            # ... or the list parser applied to the empty slice `&[]` (it answers Ok([]): obligation empty-slice->empty-list above)
+            via_parser = (len(modcalls) == 1 and mir.strip(modcalls[0].b[0]) == T("array", ()) and isinstance(m_, tuple) and m_[0] == "okval" and m_[1] == modcalls[0].c)
+            bare_ok = len(keycalls) == 1 and keycalls[0].b[0] == v and (fresh or via_parser)
     ck.ob("C13-R1", pf.path, "bare-key=={modifiers:[],key:K(value)};array=={modifiers:parse(elems[0..len-1]),key:K(elems[len-1])}", bare_ok and arr_ok, detail="bare %s array %s" % (bare_ok, arr_ok))
     pa = ctx.hir("layout_parsing_formatting::parse_absorbing")
     pm = [c for c in hirq.calls(pa["body"], path="layout_parsing_formatting::parse_modifier")]
